@@ -14,7 +14,8 @@ def main():
                 "without the __future__ import whose wrappers contain string forward references), with the expected diagram (nodes, direct-base inheritance "
                 "edges, association edges incl. inherited fields) and the classification each annotation dictates. Each model is "
                 "synthesised as a module, ClassDiagram is built in one of the 6 class orders and in another one, every field's "
-                "predicates are read, and a sequence of 3 read-only operations is applied with a snapshot before/after. "
+                "predicates are read, and a sequence of 3 read-only operations is applied with a snapshot before/after (after a view was derived, "
+                "the original's class lookup must still hand out its own nodes, the objects its edges start from). "
                 "Non-trivial = a model with at least one association or inheritance edge; distinct by (model, order, operations).")
     cfg = "ClassModel_gen_c17t.cfg" if thorough else "ClassModel_gen_c17.cfg"
     models = [j for j in ctx.run_tlc("ClassModel", cfg, expect="ok", seed=ctx.seed + 7).json_lines() if isinstance(j, dict) and "diagram" in j]
@@ -67,6 +68,9 @@ def main():
                     q = op[1]
                     if q["orig_asked"] != q["orig_edges"]:
                         problems.append(f"{op[0]}: asking the diagram class by class gives {q['orig_asked']}, its edge list says {q['orig_edges']}")
+                    if not q["orig_lookup_hands_out_own_nodes"] or q["orig_edges_by_lookup"] != q["orig_edges"]:
+                        problems.append(f"{op[0]}: after a view was derived, get_wrapped_class of the original hands out objects that are not its "
+                                        f"nodes / its edges found through the lookup are {q['orig_edges_by_lookup']}, its edge list says {q['orig_edges']}")
                     if q["sub_asked"] != q["sub_edges"]:
                         problems.append(f"{op[0]}: asking the derived diagram class by class gives {q['sub_asked']}, its edge list says {q['sub_edges']}")
                 elif op[0] in ("subdiagram", "subdiagram_named") and not m["parallel"]:
